@@ -89,3 +89,4 @@ def run(ctx):
     refgraph.rule_backreference_keys(ctx, "C03.backreference_keys", prod)
     refgraph.rule_substitution_sequence(ctx, "C03.substitution")
     refgraph.rule_removal_helpers(ctx, "C03.repointing_helpers")
+    refgraph.rule_required_links(ctx, "C03.path_required_links")
